@@ -337,7 +337,11 @@ waitSenders:
 			} else if time.Since(lastChange) > 120*time.Second {
 				close(stopCtl)
 				fail("send-path-blocked", "no SendToTarget call has returned for 120 s (%d of %d completed): the send path is blocked", n, cf.Senders*cf.PerSender)
-				return
+				// the blocked engine cannot be stopped either (Stop waits for its session): report what was observed and end the child
+				if c.Flush != nil {
+					c.Flush()
+				}
+				os.Exit(0)
 			}
 		}
 	}
@@ -700,6 +704,11 @@ func run(c *core.Ctx, r *core.Result) {
 			defer wg.Done()
 			defer func() { <-sem }()
 			rng := c.Rand("run", i)
+			defer func() {
+				if c.Flush != nil {
+					c.Flush() // intermediate results survive a later run that never comes back
+				}
+			}()
 			if pi := core.Safe(func() { oneRun(c, r, i, rng) }); pi != nil {
 				site := core.PanicSite(pi.Stack)
 				if site == "harness" {
